@@ -67,7 +67,7 @@ Definition Post (r : res (status * cfg)) : Prop :=
   match r with
   | Ret (s, c) => Inv c /\ ((s = Done /\ st c = DoneForever) \/
                             (s = end_of_input flags /\ inp c = [] /\ fut <> [] /\ bb c = 0 /\ st c <> Start /\ st c <> DoneForever) \/
-                            (s = HasMoreOutput /\ st c = RawMemcpy1 /\ pos c = omax))
+                            (s = HasMoreOutput /\ st c = RawMemcpy1 /\ pos c = omax /\ ctr c <> 0))
   | _ => False
   end.
 
@@ -309,7 +309,7 @@ Proof.
     destruct (omax - pos c =? 0) eqn:El.
     + (* the budget is used up *)
       apply N.eqb_eq in El. unfold StepOk, Post. split; [exact HI|]. right. right.
-      split; [reflexivity|]. split; [exact E|]. lia.
+      split; [reflexivity|]. split; [exact E|]. split; [lia|exact E0].
     + unfold jump, StepOk. split; [|mu_tac]. unfold Inv, InflateStoredChunks.Core, InflateStoredChunks.ShR. cbn [set_st mk st inp ileft out pos nb bb rr ctr d_check d_zadler].
       split; [exact Hi|]. split; [exact Hpre|]. split; [exact Hom|]. split; [exact Hp0|]. split; [exact Hpm|].
       split; [keep E Hck Hza|]. split; [keep E Hck Hza|].
@@ -586,7 +586,8 @@ Definition CallPost (input fut : list N) (o : arr) (p budget : N) (res : call_re
   (((cr_status res = NeedsMoreInput \/ cr_status res = HasMoreOutput) /\
     DI (cr_dec res) (skipn (N.to_nat (cr_in res)) input ++ fut) (cr_buf res) (p + cr_out res) /\
     (cr_status res = NeedsMoreInput -> fut <> [] /\ cr_in res = N.of_nat (length input) /\ has flags F_MORE = true) /\
-    (cr_status res = HasMoreOutput -> p + cr_out res = N.min (N.min (p + budget) USIZE_MAX) (alen o))) \/
+    (cr_status res = HasMoreOutput -> p + cr_out res = N.min (N.min (p + budget) USIZE_MAX) (alen o) /\
+                                      (fut = [] -> d_state (cr_dec res) = RawMemcpy1 /\ d_counter (cr_dec res) <> 0))) \/
    (cr_status res = fin /\
     cr_in res + N.of_nat (length extra) = N.of_nat (length input) + N.of_nat (length fut) /\
     p + cr_out res = p0 + N.of_nat (length PB) /\
@@ -646,7 +647,7 @@ Proof.
     split; [exact Hp0c|]. split; [exact Hpmc|]. split; [intros _; reflexivity|]. split; [exact Hza|].
     rewrite Hbb in HS.
     refine (ShR_ext _ _ _ _ _ _ _ _ _ _ _ Hs1 _ _ _ _ HS); reflexivity. }
-  destruct Hcase as [[-> Est]|[(-> & Ei & Hfut & Hbb & Hs1 & Hs2)|(-> & Est & Hfull)]].
+  destruct Hcase as [[-> Est]|[(-> & Ei & Hfut & Hbb & Hs1 & Hs2)|(-> & Est & Hfull & Hctr0)]].
   - (* finished *)
     unfold InflateStoredChunks.ShR in HS. rewrite Est in HS. destruct HS as (Hn & Hrem & Hout & Hzad).
     rewrite Hn.
@@ -716,7 +717,7 @@ Proof.
       destruct need eqn:ENA; cbv beta iota; unfold CallPost; cbn [cr_status cr_in cr_out cr_buf cr_dec];
       (split; [exact Homc|]); (split; [lia|]); left; rewrite Hskp;
       (split; [auto|]); (split; [apply Hdone; exact Hprog|]);
-      (split; [intros X; first [discriminate X|split; [exact Hfut|split; [lia|exact EM]]]|intros X; try discriminate X; fold omax; lia]).
+      (split; [intros X; first [discriminate X|split; [exact Hfut|split; [lia|exact EM]]]|intros X; first [discriminate X|(fold omax; split; [lia|intros Y; contradiction])]]).
   - (* the budget is used up in the middle of a block *)
     unfold InflateStoredChunks.ShR in HS. rewrite Est in HS.
     pose proof HS as (Hn & Hb & _).
@@ -733,7 +734,8 @@ Proof.
     specialize (Hdone Hs1 Hb). rewrite Hn in Hdone.
     destruct need eqn:ENA; cbv beta iota; unfold CallPost; cbn [cr_status cr_in cr_out cr_buf cr_dec];
       (split; [exact Homc|]); (split; [lia|]); left; rewrite Hskp;
-      (split; [auto|]); (split; [apply Hdone; exact Hprog|]); (split; [intros X; discriminate X|intros _; fold omax; lia]).
+      (split; [auto|]); (split; [apply Hdone; exact Hprog|]);
+      (split; [intros X; discriminate X|intros _; fold omax; split; [lia|intros _; cbn [write_back d_state d_counter]; split; [exact Est|exact Hctr0]]]).
 Qed.
 
 End Calls.
@@ -784,7 +786,7 @@ Proof.
     + (* NeedsMoreInput is not a possible outcome without the flag *)
       exfalso. destruct (Hnmi Hs) as (_ & _ & X). rewrite HM in X. discriminate X.
     + split; [right; split; [exact Hs|]|].
-      * specialize (Hhmo Hs). rewrite !N.add_0_l in Hhmo. exact Hhmo.
+      * specialize (Hhmo Hs). rewrite !N.add_0_l in Hhmo. exact (proj1 Hhmo).
       * rewrite N.add_0_l in HDI.
         destruct (DI_prefix flags zl cmf flg A Hcmf Hflg HA B extra 0 _ _ _ _ HDI) as (_ & _ & X).
         rewrite Hdata. rewrite N.sub_0_r in X. exact X.
